@@ -2,7 +2,7 @@ SPECIFICATION Spec
 CONSTANTS
   EffTokens = {"pa"}
   MaxEff = 1
-  Modes = {"normal", "exc", "sysexit", "baseKbd", "syntax", "internalFault", "x:importRaises", "baseImport", "x:importExit"}
+  Modes = {"normal", "closeOut", "exc", "sysexit", "baseKbd", "syntax", "internalFault", "x:importRaises", "baseImport", "x:importExit"}
   FnModes = {"normal", "exc", "baseCustom"}
   MaxFns = 1
   Depth = 2
